@@ -82,12 +82,16 @@ type Shared struct {
 func NewShared() *Shared {
 	s1, _ := bind.New([]int{2, 2}, []float64{1, 2, 3, 4}, true)
 	s2, _ := bind.New([]int{2, 2}, []float64{0.5, 1, 2, -1}, false)
-	fc, err := layers.NewFC(&layers.FCConfig{Inputs: 2, Outputs: 2, Initializers: map[string]layers.Initializer{
-		"Weight": initializers.NewFull(&initializers.FullConfig{Value: 0.5}), "Bias": initializers.NewFull(&initializers.FullConfig{Value: -0.25})}})
+	fcConf := &layers.FCConfig{Inputs: 2, Outputs: 2, Initializers: map[string]layers.Initializer{
+		"Weight": initializers.NewFull(&initializers.FullConfig{Value: 0.5}), "Bias": initializers.NewFull(&initializers.FullConfig{Value: -0.25})}}
+	fc, err := layers.NewFC(fcConf)
 	if err != nil {
 		panic(err)
 	}
-	soft, _ := activations.NewSoftmax(&activations.SoftmaxConfig{Dim: 1})
+	fcConf.Inputs, fcConf.Outputs, fcConf.Initializers = 77, 78, nil // the config structs are the caller's
+	softConf := &activations.SoftmaxConfig{Dim: 1}
+	soft, _ := activations.NewSoftmax(softConf)
+	softConf.Dim = 7
 	// the third shared tensor is the RESULT of an operation on untracked operands, and nothing has looked at it yet
 	// (not even its gradient context) when the goroutines start
 	s3, _ := s2.Sub(s2.Scale(0.5))
